@@ -60,6 +60,8 @@ func runC11(p *load.Program, r *core.Report) {
 	c11NestingAgreement(p, r)
 	c11MappedAtomLength(p, r)
 	c11NoMemorySizeBound(p, r)
+	c11DepthBalanced(p, r)
+	c11FreshElementTargets(p, r)
 }
 
 // c11ReadTiling: E2r — in every decoder of net/edf the fixed-width reads taken from one packet
